@@ -115,18 +115,18 @@ def run(res, replay=None):
         vec = r['values'][0]
         for j, (t, mv, iv) in enumerate(zip(c['ts'], m[:nts], vec)):
             res.count((key, 'cdf', t))
-            if abs(mv - iv) > 1e-9:
+            if C.gt(abs(mv - iv), 1e-9):
                 res.violation('cdf differs from the absorption probability of the labelled process (model)',
                               {'spec': c['spec'], 't': t, 'expected': mv, 'observed': iv})
                 break
         for j in range(NS):   # scalar-ish calls (the last one lies beyond every change point)
             pos = j if j < 3 else c['far_pos']
-            if abs(r['values'][1 + j][0] - vec[pos]) > 1e-10 or abs(r['values'][1 + j][0] - m[pos]) > 1e-9:
+            if C.gt(abs(r['values'][1 + j][0] - vec[pos]), 1e-10) or C.gt(abs(r['values'][1 + j][0] - m[pos]), 1e-9):
                 res.violation('cdf of one time alone differs from the vectorised value / the model',
                               {'spec': c['spec'], 't': c['ts'][pos], 'alone': r['values'][1 + j][0], 'vectorised': vec[pos], 'model': m[pos]})
         for q, t, mv in zip([0.05, 0.5, 0.9, 0.99], tq, m[nts:nts + len(tq)]):
             res.count((key, 'quantile', q))
-            if abs(mv - q) > 1e-5 + 1e-9:
+            if C.gt(abs(mv - q), 1e-5 + 1e-9):
                 res.violation('quantile: the CDF at the returned time is not within the stated precision of q',
                               {'spec': c['spec'], 'q': q, 'returned_time': t, 'model_cdf_at_time': mv})
         pm = m[nts + len(tq):]
@@ -134,14 +134,14 @@ def run(res, replay=None):
             d_model = (pm[2 * k_ + 1] - pm[2 * k_]) / 2.0 ** -12
             d_impl = r['values'][1 + NS + 4][k_]
             res.count((key, 'pdf', x))
-            if abs(d_model - d_impl) > 1e-6 * abs(d_model) + 2e-6:
+            if C.gt(abs(d_model - d_impl), 1e-6 * abs(d_model) + 2e-6):
                 res.violation('pdf does not agree with the derivative of the cdf',
                               {'spec': c['spec'], 't': x, 'model_derivative': d_model, 'observed_pdf': d_impl})
         # density at t = 0: right derivative of the model cdf
         d0_model = (pm[-1] - pm[-2]) / 2.0 ** -12      # the same one-sided difference the code uses at t = 0 (dx = 2^-12)
         d0_impl = r['values'][1 + NS + 4][3]
         res.count((key, 'pdf', 0.0), nontrivial=d0_model > 1e-6)
-        if abs(d0_model - d0_impl) > 1e-6 * abs(d0_model) + 1e-9:
+        if C.gt(abs(d0_model - d0_impl), 1e-6 * abs(d0_model) + 1e-9):
             res.violation('pdf(0) does not agree with the (right) derivative of the cdf at 0',
                           {'spec': c['spec'], 't': 0.0, 'model_derivative': d0_model, 'observed_pdf': d0_impl})
         # oracles on the implementation
@@ -151,7 +151,7 @@ def run(res, replay=None):
         srt = sorted(zip(c['ts'], vec))
         if any(b[1] < a[1] - 1e-12 for a, b in zip(srt, srt[1:])):
             res.violation('cdf values of one vector call are not non-decreasing in t', {'spec': c['spec'], 'ts': c['ts'], 'cdf': vec})
-        if abs(vec[0]) > 1e-12 and c['ts'][0] == 0.0:
+        if C.gt(abs(vec[0]), 1e-12) and c['ts'][0] == 0.0:
             res.violation('cdf(0) is not 0', {'spec': c['spec'], 'cdf0': vec[0]})
         if any(b < a - 1e-12 for a, b in zip(grid, grid[1:])) or min(grid) < -1e-12 or max(grid) > 1 + 1e-12:
             res.violation('cdf is not non-decreasing within [0,1]', {'spec': c['spec'], 'grid_head': grid[:8]})
@@ -161,7 +161,7 @@ def run(res, replay=None):
         # trapezoid of the survival function on [0, 40] vs the mean truncated at 40 (only when almost all mass is below 40)
         if grid[-1] > 1 - 1e-7 and r['t_max'] >= 40:
             integral = sum((2 - a - b) / 2 * 0.125 for a, b in zip(grid, grid[1:]))
-            if abs(integral - mean) > 2e-3 * max(1.0, mean):
+            if C.gt(abs(integral - mean), 2e-3 * max(1.0, mean)):
                 res.violation('integral of 1 - cdf does not reproduce the mean', {'spec': c['spec'], 'integral': integral, 'mean': mean})
         res.sample({'spec': c['spec'], 'ts': c['ts'][:4], 'cdf': vec[:4], 'quantiles': tq}, cap=3)
     res.stream('cdf', configurations=len(keep))
